@@ -636,7 +636,7 @@ def describe(kname, inp):
     return "%s(%s)" % (kname, ", ".join(parts))
 
 
-def run_raw(check, tier, ki, dry_until=None):
+def run_raw(check, tier, ki, part=0, nparts=1, dry_until=None):
     import c13_kernels as main
     T = main.TIERS[tier]
     k = check.kernels()[ki]
@@ -656,6 +656,8 @@ def run_raw(check, tier, ki, dry_until=None):
             capped = True
             break
         n += 1
+        if n % nparts != part:
+            continue
         st.states += 1
         if dry_until is not None:
             # reproduce the numbering of run_one without calling anything
@@ -686,9 +688,10 @@ def run_raw(check, tier, ki, dry_until=None):
     pool.unmark()
     if dry_until is not None:
         return None
-    st.count("class_%s_kernels_checked_without_definition" % k["class"])
-    st.count("raw_specialisations_checked", len(k["specializations"]))
-    if capped:
+    if part == 0:
+        st.count("class_%s_kernels_checked_without_definition" % k["class"])
+        st.count("raw_specialisations_checked", len(k["specializations"]))
+    if capped and part == 0:
         st.caps.append("%s: input cap %d of the role-aware enumeration reached" % (k["name"], T["raw_cap"]))
         st.count("raw_kernels_capped")
     return st.pack()
@@ -700,7 +703,7 @@ def replay(check, case):
     k = [x for x in check.kernels() if x["name"] == kname][0]
     inp = from_json(case["input"])
     st = Stats()
-    quarantine = kname in check.quarantined_kernels() or case.get("failure") == "crash"
+    quarantine = True
     bad, results = run_one(main.klib(), k, inp, main.TIERS["thorough"]["fills"], st, quarantine, [0])
     lines = ["case: " + describe(kname, inp)]
     for name, status, canon in results:
